@@ -26,7 +26,8 @@ Definition nav_match strict (a b : nav) : bool :=
 
 Definition notif_eqb (a b : notif) : bool :=
   andb (ideq (nf_ep a) (nf_ep b)) (andb (ideq (nf_bearer a) (nf_bearer b)) (andb (ideq (nf_auth_req a) (nf_auth_req b))
-  (andb (ideq (nf_at a) (nf_at b)) (andb (ideq (nf_rt a) (nf_rt b)) (Bool.eqb (nf_err a) (nf_err b)))))).
+  (andb (ideq (nf_at a) (nf_at b)) (andb (ideq (nf_rt a) (nf_rt b)) (andb (Bool.eqb (nf_err a) (nf_err b))
+  (ad_list_eqb (nf_details a) (nf_details b))))))).
 Fixpoint list_eqb {A} (f : A -> A -> bool) (a b : list A) : bool :=
   match a, b with [], [] => true | x :: a', y :: b' => andb (f x y) (list_eqb f a' b') | _, _ => false end.
 
@@ -39,7 +40,8 @@ Definition obs_match (strict : bool) (now : Z) (m i : obs) : bool :=
       andb (ideq (tr_at a) (tr_at b)) (andb (ideq (tr_rt a) (tr_rt b)) (andb (Bool.eqb (tr_idt a) (tr_idt b))
       (andb (seqb (tr_scope a) (tr_scope b)) (andb (Bool.eqb (tr_dpop a) (tr_dpop b))
       (andb (ideq (tr_jkt a) (tr_jkt b)) (andb (ideq (tr_x5t a) (tr_x5t b))
-      (andb (res_eqb (tr_res a) (tr_res b)) (res_eqb (tr_aud a) (tr_aud b)))))))))
+      (andb (res_eqb (tr_res a) (tr_res b)) (andb (res_eqb (tr_aud a) (tr_aud b))
+      (andb (ad_list_eqb (tr_details a) (tr_details b)) (ad_list_eqb (tr_jwt_details a) (tr_jwt_details b)))))))))))
   | Out (OPar a), Out (OPar b) => ideq a b
   | Out (OCiba a x), Out (OCiba b y) => andb (ideq a b) (Bool.eqb x y)
   | Out (OIntro a), Out (OIntro b) =>
@@ -47,7 +49,7 @@ Definition obs_match (strict : bool) (now : Z) (m i : obs) : bool :=
       andb (in_active b) (andb (Bool.eqb (in_refresh a) (in_refresh b)) (andb (seqb (in_scope a) (in_scope b))
       (andb (ideq (in_client a) (in_client b)) (andb (seqb (in_sub a) (in_sub b))
       (andb (near (in_exp a - now) (in_exp b)) (andb (ideq (in_jkt a) (in_jkt b)) (andb (ideq (in_x5t a) (in_x5t b))
-      (res_eqb (in_aud a) (in_aud b)))))))))
+      (andb (res_eqb (in_aud a) (in_aud b)) (ad_list_eqb (in_details a) (in_details b))))))))))
   | Out OOk, Out OOk => true
   | Out (OUserInfo a), Out (OUserInfo b) => seqb a b
   | Out (ONav m1 t1 n1), Out (ONav m2 t2 n2) =>
